@@ -47,6 +47,19 @@ theorem inv_step {s s' : State} {t : Nat} {l : Label} (h : Inv s) (hs : step s t
         exact inv_stepJoin h (by simp [hc, Call.jwork]) (by intro w r; simp [Call.jwork, Call.isSpawn])
           (by intro cs' hh; rw [hph] at hh; cases hh) hs
     | m2 cs raised => exact step_run_m2 h hph hc hs
+    | mRS cs raised res work =>
+      cases work with
+      | nil => exact step_run_mRS_nil h hph hc hs
+      | cons a rest =>
+        unfold step at hs; rw [hph] at hs; simp only [hc] at hs
+        exact inv_stepStop h (by intro w; simp [Call.jwork, Call.isSpawn]) (by intro cs' hh; rw [hph] at hh; cases hh) hs
+    | mRJ cs raised res work raised2 =>
+      cases work with
+      | nil => exact step_run_mRJ_nil h hph hc hs
+      | cons a rest =>
+        unfold step at hs; rw [hph] at hs; simp only [hc] at hs
+        exact inv_stepJoin h (by simp [hc, Call.jwork]) (by intro w r; simp [Call.jwork, Call.isSpawn])
+          (by intro cs' hh; rw [hph] at hh; cases hh) hs
   | fin2 cs =>
     cases hc : s.call t with
     | stopping work =>
@@ -91,6 +104,33 @@ theorem inv_call {s s' : State} {t : Nat} {op : Op} (h : Inv s) (hc : call s t o
   · rename_i r hph hcl
     cases op with
     | spawn =>
+      cases hc
+      have hfr := h.fresh s.nextId (Nat.le_refl _)
+      topen
+      case spawnR =>
+        intro u hu
+        by_cases hut : u = t
+        · subst hut; exact hph
+        · rw [upd_other _ _ _ _ hut] at hu; exact spawnR u hu
+      case fresh => intro c hc'; exact fresh c (by omega)
+      case spawnC =>
+        intro u c hu
+        by_cases hut : u = t
+        · subst hut; rw [upd_same] at hu; cases hu; exact ⟨hfr, by omega⟩
+        · rw [upd_other _ _ _ _ hut] at hu; have := spawnC u c hu; exact ⟨this.1, by omega⟩
+      case spawnU =>
+        intro u v c hu hv
+        by_cases hut : u = t
+        · subst hut; rw [upd_same] at hu; cases hu
+          by_cases hvt : v = u
+          · exact hvt.symm
+          · rw [upd_other _ _ _ _ hvt] at hv; have := (spawnC v _ hv).2; omega
+        · rw [upd_other _ _ _ _ hut] at hu
+          by_cases hvt : v = t
+          · subst hvt; rw [upd_same] at hv; cases hv; have := (spawnC u _ hu).2; omega
+          · rw [upd_other _ _ _ _ hvt] at hv; exact spawnU u v c hu hv
+      trest
+    | spawnOrphan =>
       cases hc
       have hfr := h.fresh s.nextId (Nat.le_refl _)
       topen
